@@ -70,7 +70,12 @@ def facts_dir(cfg: str) -> str:
     if not (os.path.exists(os.path.join(d, 'yuvxyb.json')) and os.path.exists(os.path.join(d, 'yuvxyb_math.json'))):
         tmp = d + '.tmp%d' % os.getpid()
         shutil.rmtree(tmp, ignore_errors=True)
-        generate(cfg, tmp)
+        try:
+            generate(cfg, tmp)
+        except RuntimeError:
+            shutil.rmtree(tmp, ignore_errors=True)
+            time.sleep(2)
+            generate(cfg, tmp)          # one retry (transient failures under heavy parallel load)
         os.makedirs(os.path.dirname(d), exist_ok=True)
         shutil.rmtree(d, ignore_errors=True)
         os.rename(tmp, d)
